@@ -3,8 +3,12 @@ package main
 // paths.go: small structural path analyses over statement lists.
 
 import (
+	"fmt"
 	"go/ast"
 	"go/token"
+	"go/types"
+	"sort"
+	"strings"
 )
 
 type pathRes int
@@ -129,8 +133,25 @@ func stripTrailingBreak(l []ast.Stmt) []ast.Stmt {
 	return l
 }
 
-// containsNode reports whether root contains a node for which f is true.
+// gHelpers maps every call of an unexported function or method declared in
+// the module to its declaration (filled by loadWorld). Pattern searches follow
+// such calls, so that a construct moved into a small helper by a refactoring
+// is still found where it used to be written inline.
+var gHelpers = map[*ast.CallExpr]*ast.FuncDecl{}
+
+// containsDeep reports whether root - or, up to two levels deep, the body of
+// an unexported helper called inside root - contains a node for which f is true.
+func containsDeep(root ast.Node, f func(ast.Node) bool) bool {
+	return containsNodeDepth(root, f, 0, map[*ast.FuncDecl]bool{})
+}
+
+// containsNode is the purely syntactic variant (no helper following); rules
+// about a function's own control flow (returns, branches) must use this one.
 func containsNode(root ast.Node, f func(ast.Node) bool) bool {
+	return containsNodeDepth(root, f, 99, nil)
+}
+
+func containsNodeDepth(root ast.Node, f func(ast.Node) bool, depth int, seen map[*ast.FuncDecl]bool) bool {
 	found := false
 	ast.Inspect(root, func(n ast.Node) bool {
 		if n == nil || found {
@@ -140,7 +161,326 @@ func containsNode(root ast.Node, f func(ast.Node) bool) bool {
 			found = true
 			return false
 		}
+		if call, ok := n.(*ast.CallExpr); ok && depth < 2 {
+			if hd := gHelpers[call]; hd != nil && hd.Body != nil && !seen[hd] && hd.Body.Pos() > 0 && !(root.Pos() >= hd.Pos() && root.End() <= hd.End()) {
+				seen[hd] = true
+				if containsNodeDepth(hd.Body, f, depth+1, seen) {
+					found = true
+					return false
+				}
+			}
+		}
 		return true
 	})
 	return found
+}
+
+// ---------------------------------------------------------------- slice tables
+
+// sliceTable describes how a function computes a set of variables, in a form
+// that does not depend on how its conditionals are nested, inverted or chained:
+// every assignment to a variable of the backward slice of the seed variables,
+// and every return under conditions over slice variables only, is listed as
+// "guards ⊢ effect", where guards are the conditions of the enclosing if
+// statements (negated for else branches, mirrored comparisons and != / == and
+// ! normalised, conjunctions split) and the loop headers. Variables are named
+// by parameter position or by declaration order inside the slice, so renaming
+// them changes nothing. The result is a sorted list of lines.
+func sliceTable(p pkgT, fd *ast.FuncDecl, seeds []string) []string {
+	type effect struct {
+		stmt   ast.Stmt
+		lhs    []types.Object
+		rhs    []types.Object
+		guards []guardAtom
+		isRet  bool
+	}
+	var effects []effect
+	objsOf := func(n ast.Node) []types.Object {
+		var out []types.Object
+		if n == nil {
+			return out
+		}
+		ast.Inspect(n, func(m ast.Node) bool {
+			if _, ok := m.(*ast.FuncLit); ok {
+				return false
+			}
+			if id, ok := m.(*ast.Ident); ok {
+				if v, ok := p.TypesInfo.ObjectOf(id).(*types.Var); ok && !v.IsField() && v.Pkg() == p.Types && v.Parent() != p.Types.Scope() {
+					out = append(out, v)
+				}
+			}
+			return true
+		})
+		return out
+	}
+	var walk func(list []ast.Stmt, g []guardAtom)
+	var walkStmt func(s ast.Stmt, g []guardAtom)
+	walkStmt = func(s ast.Stmt, g []guardAtom) {
+		switch x := s.(type) {
+		case nil:
+		case *ast.BlockStmt:
+			walk(x.List, g)
+		case *ast.AssignStmt:
+			var l, r []types.Object
+			for _, e := range x.Lhs {
+				l = append(l, objsOf(e)...)
+			}
+			for _, e := range x.Rhs {
+				r = append(r, objsOf(e)...)
+			}
+			if x.Tok != token.ASSIGN && x.Tok != token.DEFINE {
+				r = append(r, l...)
+			}
+			effects = append(effects, effect{stmt: x, lhs: l, rhs: r, guards: g})
+		case *ast.IncDecStmt:
+			l := objsOf(x.X)
+			effects = append(effects, effect{stmt: x, lhs: l, rhs: l, guards: g})
+		case *ast.ReturnStmt:
+			effects = append(effects, effect{stmt: x, guards: g, isRet: true})
+		case *ast.IfStmt:
+			if x.Init != nil {
+				walkStmt(x.Init, g)
+			}
+			pos, neg := splitCond(x.Cond)
+			walk(x.Body.List, append(append([]guardAtom{}, g...), pos...))
+			if x.Else != nil {
+				walkStmt(x.Else, append(append([]guardAtom{}, g...), neg...))
+			}
+		case *ast.ForStmt:
+			if x.Init != nil {
+				walkStmt(x.Init, g)
+			}
+			g2 := append([]guardAtom{}, g...)
+			if x.Cond != nil {
+				pos, _ := splitCond(x.Cond)
+				for _, a := range pos {
+					a.loop = true
+					g2 = append(g2, a)
+				}
+			}
+			if x.Post != nil {
+				walkStmt(x.Post, g2)
+			}
+			walk(x.Body.List, g2)
+		case *ast.LabeledStmt:
+			walkStmt(x.Stmt, g)
+		}
+	}
+	walk = func(list []ast.Stmt, g []guardAtom) {
+		for _, s := range list {
+			walkStmt(s, g)
+			// what follows an if statement runs under the negation of every
+			// branch that ends in return / break / continue
+			if is, ok := s.(*ast.IfStmt); ok {
+				if extra := afterIf(is); len(extra) > 0 {
+					g = append(append([]guardAtom{}, g...), extra...)
+				}
+			}
+		}
+	}
+	walk(fd.Body.List, nil)
+	// backward slice
+	tracked := map[types.Object]bool{}
+	byName := map[string]types.Object{}
+	for _, o := range objsOf(fd) {
+		if _, ok := byName[o.Name()]; !ok {
+			byName[o.Name()] = o
+		}
+	}
+	for _, s := range seeds {
+		if o := byName[s]; o != nil {
+			tracked[o] = true
+		}
+	}
+	guardVars := func(g []guardAtom) []types.Object {
+		var out []types.Object
+		for _, a := range g {
+			if a.fallthru {
+				continue // not part of the slice: a guard added by the port would drag its variables in
+			}
+			out = append(out, objsOf(a.e)...)
+		}
+		return out
+	}
+	for changed := true; changed; {
+		changed = false
+		for _, e := range effects {
+			hit := false
+			for _, o := range e.lhs {
+				if tracked[o] {
+					hit = true
+				}
+			}
+			if !hit {
+				continue
+			}
+			for _, o := range append(append([]types.Object{}, e.rhs...), guardVars(e.guards)...) {
+				if !tracked[o] {
+					tracked[o] = true
+					changed = true
+				}
+			}
+		}
+	}
+	// names: parameters by position, other slice variables by declaration order
+	cz := newCanon(p, fd, nil)
+	i := 0
+	for _, f := range fd.Type.Params.List {
+		for _, nm := range f.Names {
+			cz.names[p.TypesInfo.Defs[nm]] = fmt.Sprintf("$p%d", i)
+			i++
+		}
+	}
+	var locals []types.Object
+	for o := range tracked {
+		if _, isParam := cz.names[o]; !isParam {
+			locals = append(locals, o)
+		}
+	}
+	sort.Slice(locals, func(a, b int) bool { return locals[a].Pos() < locals[b].Pos() })
+	for k, o := range locals {
+		cz.names[o] = fmt.Sprintf("$v%d", k)
+	}
+	render := func(n ast.Node) string {
+		cz.b.Reset()
+		cz.node(n)
+		return strings.Join(strings.Fields(cz.b.String()), " ")
+	}
+	allTracked := func(os []types.Object) bool {
+		for _, o := range os {
+			if !tracked[o] {
+				return false
+			}
+		}
+		return true
+	}
+	var lines []string
+	for _, e := range effects {
+		keep := false
+		if e.isRet {
+			// only returns under a condition written around them (the
+			// function's last, unconditional return is not part of the slice)
+			structural := 0
+			for _, a := range e.guards {
+				if !a.fallthru {
+					structural++
+				}
+			}
+			keep = structural > 0 && allTracked(guardVars(e.guards))
+		} else {
+			for _, o := range e.lhs {
+				if tracked[o] {
+					keep = true
+				}
+			}
+		}
+		if !keep {
+			continue
+		}
+		var gs []string
+		for _, a := range e.guards {
+			if !allTracked(objsOf(a.e)) {
+				continue
+			}
+			s := render(a.e)
+			if a.neg {
+				s = "not " + s
+			}
+			if a.loop {
+				s = "while " + s
+			}
+			gs = append(gs, s)
+		}
+		sort.Strings(gs)
+		eff := "return"
+		if !e.isRet {
+			eff = render(e.stmt)
+		} else if r := e.stmt.(*ast.ReturnStmt); len(r.Results) > 0 {
+			eff = "return " + render(r.Results[0])
+		}
+		lines = append(lines, strings.Join(gs, " & ")+" |- "+eff)
+	}
+	sort.Strings(lines)
+	return lines
+}
+
+func blockTerminates(list []ast.Stmt) bool {
+	if len(list) == 0 {
+		return false
+	}
+	switch list[len(list)-1].(type) {
+	case *ast.ReturnStmt, *ast.BranchStmt:
+		return true
+	}
+	return false
+}
+
+// afterIf: atoms that hold for the statements following an if statement.
+func afterIf(is *ast.IfStmt) []guardAtom {
+	var out []guardAtom
+	mark := func(as []guardAtom) []guardAtom {
+		for i := range as {
+			as[i].fallthru = true
+		}
+		return as
+	}
+	pos, neg := splitCond(is.Cond)
+	if blockTerminates(is.Body.List) {
+		out = append(out, mark(neg)...)
+		if e, ok := is.Else.(*ast.IfStmt); ok {
+			out = append(out, afterIf(e)...)
+		}
+	}
+	if eb, ok := is.Else.(*ast.BlockStmt); ok && blockTerminates(eb.List) {
+		out = append(out, mark(pos)...)
+	}
+	return out
+}
+
+type guardAtom struct {
+	e        ast.Expr
+	neg      bool
+	loop     bool
+	fallthru bool // holds because an earlier `if … { return }` was not taken
+}
+
+// splitCond normalises a condition into atoms: the atoms that hold when it is
+// true and the atoms that hold when it is false. `a && b` true gives both,
+// `a || b` false gives both negated; `!x` flips; `a != b` is not(a == b);
+// `a >= b` is not(a < b) and `a <= b` is not(b < a) (`>` is mirrored by the
+// canonizer). A disjunction that is true, or a conjunction that is false,
+// stays one composite atom.
+func splitCond(e ast.Expr) (whenTrue, whenFalse []guardAtom) {
+	e = ast.Unparen(e)
+	switch x := e.(type) {
+	case *ast.UnaryExpr:
+		if x.Op == token.NOT {
+			t, f := splitCond(x.X)
+			return f, t
+		}
+	case *ast.BinaryExpr:
+		switch x.Op {
+		case token.LAND:
+			t1, _ := splitCond(x.X)
+			t2, _ := splitCond(x.Y)
+			return append(t1, t2...), []guardAtom{{e: e, neg: true}}
+		case token.LOR:
+			_, f1 := splitCond(x.X)
+			_, f2 := splitCond(x.Y)
+			return []guardAtom{{e: e}}, append(f1, f2...)
+		case token.NEQ:
+			eq := &ast.BinaryExpr{X: x.X, Op: token.EQL, Y: x.Y, OpPos: x.OpPos}
+			return []guardAtom{{e: eq, neg: true}}, []guardAtom{{e: eq}}
+		case token.GEQ:
+			lt := &ast.BinaryExpr{X: x.X, Op: token.LSS, Y: x.Y, OpPos: x.OpPos}
+			return []guardAtom{{e: lt, neg: true}}, []guardAtom{{e: lt}}
+		case token.LEQ:
+			lt := &ast.BinaryExpr{X: x.Y, Op: token.LSS, Y: x.X, OpPos: x.OpPos}
+			return []guardAtom{{e: lt, neg: true}}, []guardAtom{{e: lt}}
+		case token.GTR:
+			lt := &ast.BinaryExpr{X: x.Y, Op: token.LSS, Y: x.X, OpPos: x.OpPos}
+			return []guardAtom{{e: lt}}, []guardAtom{{e: lt, neg: true}}
+		}
+	}
+	return []guardAtom{{e: e}}, []guardAtom{{e: e, neg: true}}
 }
